@@ -23,6 +23,7 @@ Search: the property restated on the API (never through the Lean model).
 """
 import itertools
 import math
+import warnings
 import os
 import sys
 from fractions import Fraction
@@ -1092,6 +1093,29 @@ def _oracle_findap(ctx, dflt, seq, y, tol):
         ctx.fail("findap-default-raises-" + type(e).__name__, "default findap raises", inp, repr(e), "a boolean vector")
         return
     check("default", pd_, lambda tag: F4 if tr["drift"] else "findap-default-%s-without-drift" % tag, 1)
+    # the same samples as raw integer counts (24-bit ADC data held in int32, 12-bit data in int16) or single precision: the
+    # selection depends on ratios of differences only, so it must be the one of the float64 record (scaling by 2^k is exact)
+    if n >= 3 and np.all(np.isfinite(y)) and float(np.abs(y).max()) > 0:
+        for dt, top in (("int32", 2.0 ** 23), ("int16", 2.0 ** 11), ("int64", 2.0 ** 40), ("float32", 2.0 ** 10)):
+            k = math.floor(math.log2(top / float(np.abs(y).max())))
+            ys = y * 2.0 ** k
+            if np.any(ys != np.round(ys)):
+                continue
+            yv = ys.astype(dt)
+            if np.any(yv.astype(float) != ys):
+                continue
+            try:
+                with np.errstate(all="ignore"), warnings.catch_warnings():
+                    warnings.simplefilter("ignore")
+                    pv = np.asarray(dflt(yv, tol))
+            except Exception as e:  # noqa: BLE001
+                ctx.fail("findap-dtype-%s-raises" % dt, "default findap refuses a %s record" % dt, dict(inp, dtype=dt, scale=2.0 ** k),
+                         repr(e)[:120], "a boolean vector")
+                continue
+            if pv.shape != np.asarray(pd_).shape or not np.array_equal(pv, np.asarray(pd_)):
+                ctx.fail("findap-dtype-%s-selects-other-samples" % dt, "default findap selects other samples for the same record stored as "
+                         "%s (times 2^%d) than for float64" % (dt, k), dict(inp, dtype=dt, scale=2.0 ** k),
+                         np.nonzero(pv)[0].tolist() if pv.dtype == bool else str(pv.dtype), np.nonzero(pd_)[0].tolist())
     if seq is None or abs(tol) >= 1:
         return
     try:
@@ -1159,6 +1183,17 @@ def _oracle_binify(ctx, cyc, right, check, specs):
             ctx.fail("binify-indexerror-with-check-bounds" if not all_auto else "binify-indexerror-with-auto-bins",
                      "binify raises IndexError although check_bounds=True / the bins are automatic", inp, repr(e), "a table")
         return
+
+    # "(at least) 3 columns": the same cycles with further columns appended (the offsets of rainflow(getoffsets=True), a weight
+    # column) must give the same table
+    try:
+        arr_x = np.column_stack([arr, 3 + 7 * np.arange(len(arr)), np.full(len(arr), 41.0)])
+        T2 = cyclecount.binify(arr_x, specs[0], specs[1], right, use_pandas=False, check_bounds=check)
+        if not np.array_equal(np.asarray(T2), np.asarray(T)):
+            ctx.fail("binify-extra-columns-change-table", "appending columns to the 3-column cycle table changes the binned table",
+                     inp, np.asarray(T2).tolist(), np.asarray(T).tolist())
+    except Exception as e:  # noqa: BLE001
+        ctx.fail("binify-extra-columns-raise", "binify refuses a cycle table with more than 3 columns", inp, repr(e)[:120], "the same table")
 
     def inside(x, b):
         return (b[0] < x <= b[-1]) if right else (b[0] <= x < b[-1])
